@@ -2,6 +2,7 @@ package main
 
 import (
 	"fmt"
+	"hash/fnv"
 	"os"
 	"regexp"
 	"sort"
@@ -96,7 +97,10 @@ type Obs struct {
 	OutErr        string    `json:"outerr,omitempty"`
 	Log           []string  `json:"log,omitempty"`
 	Policy        string    `json:"policy,omitempty"`
+	OutDigest     string    `json:"-"`
 }
+
+var outDump = os.Getenv("VERIF_OUTDUMP") != ""
 
 func (o *Obs) add(run, sig, detail string) {
 	for _, v := range o.Verdicts {
@@ -266,6 +270,9 @@ func twoRuns(c *Case, sc *Script, b Budgets, o *Obs, judge func(name string, r *
 		o.absorb(base)
 		judge("base", base)
 		c.resolve(base.Res.Stats.Yields)
+		if outDump {
+			o.OutDigest = outDigest(base)
+		}
 		if c.Sim.Policy == "" || c.Sim.Policy == "canonical" {
 			if len(c.Sim.Stalls) == 0 {
 				o.finishTest(c, base)
@@ -278,6 +285,31 @@ func twoRuns(c *Case, sc *Script, b Budgets, o *Obs, judge func(name string, r *
 	judge("test", test)
 	o.finishTest(c, test)
 	return base, test
+}
+
+// outDigest renders the outcomes of all operations of a run (setup and clients) in a
+// short form; used by sim/diff_trees.sh to compare two versions of the library on the
+// same generated cases (functional regression net for repairs made in /repo).
+func outDigest(r *RunOut) string {
+	if r == nil {
+		return ""
+	}
+	h := fnv.New64a()
+	var first string
+	for _, ops := range r.Outcomes {
+		for _, oc := range ops {
+			c := oc.class()
+			if !oc.Ok && oc.Done && !oc.Skipped {
+				c = "error"
+			}
+			h.Write([]byte(c))
+			h.Write([]byte{0})
+			if first == "" && oc.Done && !oc.Skipped && len(ops) > 0 {
+				first = trunc(c, 60)
+			}
+		}
+	}
+	return fmt.Sprintf("%016x %s %s", h.Sum64(), r.Res.End, first)
 }
 
 // ---------- C04 ----------
@@ -335,8 +367,14 @@ func execC04(c *Case, sc *Script, o *Obs) {
 
 // ---------- C12 ----------
 
-func judgeLeftover(prop, name string, r *RunOut, huge bool, o *Obs) {
+func judgeLeftover(prop, name string, r *RunOut, huge bool, sparse bool, o *Obs) {
 	res := r.Res
+	// a filter that passes nothing behind some value: a producer that was told to stop "at its next
+	// item" never gets one (own signature: the asynchronous-stop weakness, see known findings)
+	bg := ":background:"
+	if sparse {
+		bg = ":background-sparse:"
+	}
 	for _, g := range r.Unmanaged {
 		o.add(name, prop+":unmanaged-goroutine:"+g.Fn, fmt.Sprintf("goroutine %s [%s] entered the library at %s and is parked in %s after the call returned and all scheduled tasks were gone (a goroutine obtained without a go statement: coroutine/timer)", g.ID, g.State, g.Fn, g.Top))
 	}
@@ -363,7 +401,7 @@ func judgeLeftover(prop, name string, r *RunOut, huge bool, o *Obs) {
 		for _, l := range res.Leftover {
 			if strings.Contains(l.Role, "iterator.ToChan") && total >= 1000 {
 				driver = true
-				o.add(name, prop+":background:"+l.Role, fmt.Sprintf("%s#%d has not terminated and keeps pulling its source (%s, %s) %s after the call returned; yields passed by leftover tasks since the return: %d",
+				o.add(name, prop+bg+l.Role, fmt.Sprintf("%s#%d has not terminated and keeps pulling its source (%s, %s) %s after the call returned; yields passed by leftover tasks since the return: %d",
 					l.Role, l.Ordinal, l.State, l.Op, res.End, total))
 			}
 		}
@@ -377,7 +415,7 @@ func judgeLeftover(prop, name string, r *RunOut, huge bool, o *Obs) {
 			// only tasks that were actually busy after the call returned: a task that is
 			// merely alive may have been starved by the busy one for the whole grace period
 			if l.State != "blocked" && l.YieldsAfterRoot >= 1000 {
-				o.add(name, prop+":background:"+l.Role, fmt.Sprintf("%s#%d still %s (%s) %s after the call returned; yields since return=%d, simulated time since return=%v",
+				o.add(name, prop+bg+l.Role, fmt.Sprintf("%s#%d still %s (%s) %s after the call returned; yields since return=%d, simulated time since return=%v",
 					l.Role, l.Ordinal, l.State, l.Op, res.End, res.Stats.Yields-res.Stats.RootDoneAtY, time.Duration(res.Stats.SimTime-res.Stats.RootDoneAtT)))
 			}
 		}
@@ -392,7 +430,7 @@ func execC12(c *Case, sc *Script, o *Obs) {
 		b.GraceTime = int64(time.Second)
 	}
 	judge := func(name string, r *RunOut) {
-		judgeLeftover("C12", name, r, c.X.Huge, o)
+		judgeLeftover("C12", name, r, c.X.Huge, c.X.SparseAt > 0, o)
 		if r.Res.Stats.Tasks > 1 {
 			oc := clientOutcome(r)
 			if !oc.Ok || r.Res.Stats.Tasks > 2 {
